@@ -930,6 +930,17 @@ def special_cases(strict=True):
                                          'a.a2l': '/* first */\n' + m1 + '// last\n'})
     add('comment inside an included block', {'main.a2l': _HEAD + '    /include "a.a2l"\n' + _TAIL,
                                              'a.a2l': _meas('m1', '      /* inner */\n      ECU_ADDRESS 0x1\n')})
+    # position-numbered components (RECORD_LAYOUT): the include file supplies components around / between those of the main file
+    rl = lambda body: '    /begin RECORD_LAYOUT rl\n' + body + '    /end RECORD_LAYOUT\n'      # noqa: E731
+    add('RECORD_LAYOUT: included components around one of the main file',
+        {'main.a2l': _HEAD + rl('      /include "layouts/axis_x.a2l"\n      FNC_VALUES 2 UBYTE ROW_DIR DIRECT\n') + _TAIL,
+         'layouts/axis_x.a2l': 'NO_AXIS_PTS_X 1 UBYTE\nAXIS_PTS_X 3 UBYTE INDEX_INCR DIRECT\n'})
+    add('RECORD_LAYOUT: included component between two of the main file',
+        {'main.a2l': _HEAD + rl('      NO_AXIS_PTS_X 1 UBYTE\n      /include "fnc.a2l"\n      AXIS_PTS_X 3 UBYTE INDEX_INCR DIRECT\n') + _TAIL,
+         'fnc.a2l': 'FNC_VALUES 2 UBYTE ROW_DIR DIRECT\n'})
+    add('RECORD_LAYOUT: two include files with interleaved positions',
+        {'main.a2l': _HEAD + rl('      /include "a.a2l"\n      /include "b.a2l"\n') + _TAIL,
+         'a.a2l': 'NO_AXIS_PTS_X 1 UBYTE\nFNC_VALUES 3 UBYTE ROW_DIR DIRECT\n', 'b.a2l': 'AXIS_PTS_X 2 UBYTE INDEX_INCR DIRECT\nNO_AXIS_PTS_Y 4 UBYTE\n'})
     add('whole MODULE', {'main.a2l': 'ASAP2_VERSION 1 71\n/begin PROJECT p ""\n/include "mod.a2l"\n/end PROJECT\n',
                          'mod.a2l': '  /begin MODULE m ""\n' + m1 + '  /end MODULE\n'})
     add('two MODULEs, one included', {'main.a2l': 'ASAP2_VERSION 1 71\n/begin PROJECT p ""\n  /begin MODULE m0 ""\n  /end MODULE\n'
